@@ -52,6 +52,8 @@ def run(facts, R):
             buf = s.op(wr[0][1]["args"][0])
             stores = [w for i, j, w in b.assigns() if [e.get("f") for e in w["place"]["p"] if isinstance(e, dict)][-1:] == ["body"]]
             okb = len(stores) == 1 and s.rvalue(stores[0]["rv"]) == buf
+            if not stores and s.local(0)[0] == "agg" and s.local(0)[1] == "message::MessageBuilder":
+                okb = dict(s.local(0)[3]).get("body") == buf       # returned as a struct literal
             R.check(okb, "size-writer-pairs", builder, "self.body = the buffer written", "body is set to %s" % [render(s.rvalue(x["rv"]))[:80] for x in stores], b.span)
         sb = facts.body(streamer)
         ss = Sym(sb)
@@ -219,6 +221,11 @@ def _format_is_beve(facts, R, b, s, beve_code, adt, field):
         ok = eval_const(v) == beve_code
         w = must_cross(b, [(0, 0)], return_points(b), [(ws[0]["bb"], ws[0]["idx"])], after_start=False)
         ok = ok and w is None
+    elif not ws and s.local(0)[0] == "agg" and s.local(0)[1] == adt and field in dict(s.local(0)[3]):
+        # the value is returned as a struct literal (`Self { body_format: .., ..self }`)
+        v = dict(s.local(0)[3])[field]
+        det = render(v)
+        ok = eval_const(v) == beve_code
     elif not ws:
         # one-level summary: an in-crate helper that stores Beve into the header/builder it is given, on every path
         for i, t in b.calls():
